@@ -28,6 +28,7 @@ const (
 	vC14SigGhost    = "tsi1-shard-lists-series-dropped-from-that-shard-only"
 	vC14SigPhantom  = "tsi1-series-tombstone-lost-on-log-replay-after-series-file-compaction"
 	vC14SigDeadlock = "delete-vs-tsi-compaction-deadlock"
+	vC14SigPiecewise = "series-lingers-after-piecewise-time-range-deletes"
 	vC14BigLog      = 1 << 20
 )
 
@@ -53,6 +54,9 @@ type vC14Case struct {
 	ntQuery          bool // ... and a check ran after that
 	recreated        bool // a dropped series was written again
 	sfileDeleted     bool // a series id was removed from the series file (dropped from every shard)
+	// "shard|key" of series that lost some but not all of their points to a time-range delete and
+	// have not left the shard since (see vC14SigPiecewise)
+	partial map[string]bool
 	checks           int
 }
 
@@ -187,12 +191,66 @@ func (c *vC14Case) stepWrite() {
 	c.class("act:write")
 }
 
+// wouldFinishPiecewise reports whether DELETE (names, p, [lo,hi]) removes the last points of a
+// series that an earlier time-range delete already cut.
+func (c *vC14Case) wouldFinishPiecewise(names []string, p *vDualPred, lo, hi int64) bool {
+	nameSet := map[string]bool{}
+	for _, n := range names {
+		nameSet[n] = true
+	}
+	for _, sh := range c.bed.shardIDs() {
+		for key, tss := range c.model.shards[sh].live {
+			if !c.partial[fmt.Sprintf("%d|%s", sh, key)] {
+				continue
+			}
+			name, tags := vDualKeyParts(key)
+			if len(names) > 0 && !nameSet[name] {
+				continue
+			}
+			if p != nil && !p.Eval(tags) {
+				continue
+			}
+			left := 0
+			for ts := range tss {
+				if ts < lo || ts > hi {
+					left++
+				}
+			}
+			if left == 0 {
+				return true
+			}
+		}
+	}
+	return false
+}
+
 func (c *vC14Case) applyDelete(kind string, names []string, p *vDualPred, lo, hi int64) {
 	gone := 0
 	touched := 0
 	nameSet := map[string]bool{}
 	for _, n := range names {
 		nameSet[n] = true
+	}
+	// bookkeeping for vC14SigPiecewise: which series lose some but not all points to this delete
+	full := lo == influxql.MinTime && hi == influxql.MaxTime
+	if !full {
+		for _, sh := range c.bed.shardIDs() {
+			for key, tss := range c.model.shards[sh].live {
+				name, tags := vDualKeyParts(key)
+				if (len(names) > 0 && !nameSet[name]) || (p != nil && !p.Eval(tags)) {
+					continue
+				}
+				in := 0
+				for ts := range tss {
+					if ts >= lo && ts <= hi {
+						in++
+					}
+				}
+				if in > 0 && in < len(tss) {
+					c.partial[fmt.Sprintf("%d|%s", sh, key)] = true
+				}
+			}
+		}
 	}
 	for _, sh := range c.bed.shardIDs() {
 		g, t := c.model.shards[sh].deleteRange(func(name string, tags map[string]string) bool {
@@ -203,6 +261,7 @@ func (c *vC14Case) applyDelete(kind string, names []string, p *vDualPred, lo, hi
 		}, lo, hi)
 		touched += t
 		for _, k := range g {
+			delete(c.partial, fmt.Sprintf("%d|%s", sh, k))
 			c.dropped[fmt.Sprintf("%d|%s", sh, k)] = true
 			// gone from every shard?
 			still := false
@@ -323,6 +382,18 @@ func (c *vC14Case) stepDeleteRange() {
 		parts = append(parts, fmt.Sprintf("time <= %d", hi))
 	}
 	condText := strings.Join(parts, " AND ")
+	// Known finding vC14SigPiecewise: after a time-range delete the engine keeps a series in the
+	// index when its key is still in a TSM file's index, even if every point of it is covered by
+	// tombstones - which is what happens when several disjoint ranges delete it piece by piece
+	// (the TSM index only notices full coverage for one range or contiguous ranges). A delete
+	// that would remove the LAST points of a series that already lost points to an earlier
+	// time-range delete is therefore not generated.
+	if c.wouldFinishPiecewise(names, p, lo, hi) {
+		c.st.Exclude(vC14SigPiecewise)
+		c.hist = append(c.hist, fmt.Sprintf("(skipped: DELETE FROM %v WHERE %s would finish a piecewise delete)", names, condText))
+		c.class("delrange:skipped-piecewise")
+		return
+	}
 	c.hist = append(c.hist, fmt.Sprintf("DELETE FROM %v WHERE %s", names, condText))
 	cond := influxql.MustParseExpr(condText)
 	var hung bool
@@ -761,7 +832,7 @@ func vC14Run(rt *rapid.T, st *verifkit.Stats) {
 	}
 	defer bed.Close()
 	c := &vC14Case{rt: rt, st: st, cfg: cfg, bed: bed, model: vDualNewModel(bed.shardIDs()),
-		dropped: map[string]bool{}, classes: map[string]bool{}}
+		dropped: map[string]bool{}, classes: map[string]bool{}, partial: map[string]bool{}}
 	n := rapid.IntRange(3, 30).Draw(rt, "steps")
 	for step := 0; step < n; step++ {
 		lvlBefore := bed.maxLevel
